@@ -30,16 +30,34 @@ theorem only_accessible_fields (rec : Node → Node → Outcome (List Stmt)) (l 
       (let fs := (ctx.env.fieldsOf (l.exprType ctx.env)).filter fun f => ctx.accessible l f.name
        BCtx.structToStructWith.go ctx rec l r args fs) := rfl
 
-/-- an unexported member of an imported struct type is not accessible -/
-theorem imported_unexported_inaccessible (structNode : Node) (leaf : String)
-    (hn : ctx.env.isNamedType (ctx.env.derefPtr (structNode.exprType ctx.env)) = true)
-    (hext : ctx.env.isExternalPkg (ctx.env.ty (ctx.env.derefPtr (structNode.exprType ctx.env))).pkgPath = true)
-    (hunexp : isExportedName leaf = false) : ctx.accessible structNode leaf = false := by
-  unfold BCtx.accessible
-  simp only
+/-- an unexported member that another package declares is not accessible — whichever type it is
+reached through: an imported struct type, a local type defined over one, an anonymous struct inside
+one (the repaired `dst.secret = src.secret`) -/
+theorem foreign_unexported_inaccessible (structNode : Node) (leaf : String) (f : Field)
+    (hf : (ctx.env.fieldsOf (ctx.env.derefPtr (structNode.exprType ctx.env))).find? (·.name == leaf) = some f)
+    (hfor : f.foreign = true) (hunexp : isExportedName leaf = false) :
+    ctx.accessible structNode leaf = false := by
+  unfold BCtx.accessible Env.visibleMember
+  simp only [hf, hfor, hunexp]
   split
   · rfl
-  · simp [hext, hunexp]
+  · split <;> simp
+
+/-- the blank field is never accessible (the repaired `dst._ = src._`) -/
+theorem blank_inaccessible (structNode : Node) : ctx.accessible structNode "_" = false := by
+  unfold BCtx.accessible
+  simp only
+  split <;> simp
+
+/-- a member the generated package declares itself is accessible, exported or not -/
+theorem own_member_accessible (structNode : Node) (leaf : String) (f : Field)
+    (hs : ctx.env.isStructType (ctx.env.derefPtr (structNode.exprType ctx.env)) = true)
+    (hb : leaf ≠ "_")
+    (hf : (ctx.env.fieldsOf (ctx.env.derefPtr (structNode.exprType ctx.env))).find? (·.name == leaf) = some f)
+    (hown : f.foreign = false) :
+    ctx.accessible structNode leaf = true := by
+  unfold BCtx.accessible Env.visibleMember
+  simp [hs, hb, hf, hown]
 
 /-! ### former finding (DESIGN §5 #14), repaired in reedom/convergen: a nested by-value struct pair
 whose destination side has no accessible member used to yield no line at all.  The model no longer
